@@ -212,6 +212,8 @@ def expect_bundle(args, send, off):
         raise Refuse('bundle time is not a number')
     els = []
     for e in args[1:]:
+        if isinstance(e, dict) and ('s' in e or 'u' in e or is_bytes(e)):
+            raise OutOfDomain('a str/bytes/tuple where an element list is expected is indexed like a list')
         if not isinstance(e, list) or not e:
             raise Refuse('bundle element is not a non-empty list')
         if is_str(e[0]):
@@ -377,7 +379,8 @@ class Check(common.Check):
         r = rng.random()
         if weird and r < 0.02:
             return rng.choice([js(''), js('foo'), js('/é' + 'a' * rng.randrange(3)), js('/a\x00b'),
-                               5, None, jb(b'/a'), js('\ud800'), js('#bundle'), True, []])
+                               5, None, jb(b'/a'), js('\ud800'), js('#bundle' if self.BUNDLE_DAMAGE else '#bundl'),
+                               True, []])
         n = rng.choice([0, 1, 2, 3, 4, 5, 6, 7, rng.randrange(8, 30)])
         s = '/' + ''.join(rng.choice(self.SEGCH + '/' if i % 5 else self.SEGCH) for i in range(n))
         if rng.random() < 0.05:
@@ -569,6 +572,7 @@ class Check(common.Check):
         return spec
 
     SUBT = None
+    BUNDLE_DAMAGE = False     # damaged bundles (element sizes) belong to C18's hostile stream (repair D1)
 
     def gen_one(self, rng):
         r = rng.random()
@@ -609,6 +613,8 @@ class Check(common.Check):
                     e = b'#bundle\x00' + struct.pack('>Q', rng.choice([0, 3, 9])) + struct.pack('>i', len(e)) + e
                 d += struct.pack('>i', len(e)) + e
         r = rng.random()
+        if d.startswith(b'#') and not self.BUNDLE_DAMAGE:
+            r = 1.0
         if r < 0.3 and d:
             d = d[:rng.randrange(len(d) + 1)]
         elif r < 0.5 and d:
@@ -813,7 +819,7 @@ class Check(common.Check):
             r = o.get('r', o.get('dec', ''))
             inc(f'{k}:' + (r.split()[1] if r.startswith('err ') else 'ok'))
             if k in ('msg', 'bndl') and r.startswith('ok '):
-                n = len(r) // 2
+                n = (len(r) - 3) // 2
                 inc('dgram_len:' + ('<32' if n < 32 else '<128' if n < 128 else '<1024' if n < 1024 else '>=1024'))
                 inc(f'dgram_mod4:{n % 4}')
             if k == 'clump' and r.startswith('ok '):
